@@ -38,6 +38,7 @@ THEOREMS = [
     "cachedTemplate_is_lru_history",
     "cached_transparent",
     "cached_identity_stable",
+    "cached_identity_while_recent",
     "cached_miss_is_fresh",
 ]
 
